@@ -858,6 +858,8 @@ impl<'b> InnerBucket<'b> {
                         // Make that child page the bucket's root page.
                         self.meta.root_page = page_id;
                         self.root = PageNodeID::Page(page_id);
+                        // spill starts from the root node, so the new root must have one
+                        self.node(PageNodeID::Page(page_id), None);
                     }
                 } else {
                     // else find a sibling and merge this node with that one
